@@ -3,7 +3,7 @@
 TIER="${1:-quick}"; FROM="${2:-100}"; TO="${3:-110}"
 DIR="$(cd "$(dirname "$0")" && pwd)"
 for seed in $(seq "$FROM" "$TO"); do
-  for p in C01 C02 C03 C04 C05 C06 C07 C08 C09 C10 C11 C12 C15 C16 C17 C18 C19 C20; do
+  for p in ${PROPS:-C01 C02 C03 C04 C05 C06 C07 C08 C09 C10 C11 C12 C15 C16 C17 C18 C19 C20}; do
     VERIF_SEED=$seed "$DIR/check" $p "$TIER" 2>&1 | grep -E "^VIOLATION|^hepsim|oracle=|MACHINERY|KNOWN|^  " | cut -c1-400
   done
 done
